@@ -92,7 +92,7 @@ def cases(tier, seed):
         for n in range(1, (6 if tier == "quick" else 8) + 1):
             for cs in chunk_sizes(n):
                 nchunks = 1 if cs is None else -(-n // cs)
-                if math.factorial(W) ** nchunks > (250 if tier == "quick" else 8000):
+                if math.factorial(W) ** nchunks > (250 if tier == "quick" else 4000):
                     continue  # bound on the number of delivery orders per case
                 for mode in ("centres", "ids"):
                     out.append(dict(part="par", W=W, n=n, chunksize=cs, mode=mode, cols="wz"))
